@@ -427,6 +427,7 @@ func TestCheck(t *testing.T) {
 	}
 	close(ch)
 	wg.Wait()
+	answerChanges(rep, states)
 	sec.States, sec.Transitions = int64(len(states)), sec.Evaluations
 	sec.Samples = append(sec.Samples, "state=a12b1 POST /api/get ct=application/json hdr=setec whois=user-limited body=valid-b -> 200 with the API's JSON", "state=a1 GET /api/put ... -> non-2xx, database and audit log untouched")
 	if err := rep.Write(env); err != nil {
@@ -466,4 +467,99 @@ func toRef(rs acl.Rules) []model.Rule {
 		out = append(out, m)
 	}
 	return out
+}
+
+// answerChanges: one server, two requests from the same address, and the tailnet's answer for that
+// address changes in between (a grant withdrawn or widened, the node re-tagged, the lookup failing or
+// working again). "The permissions applied are exactly the rules granted in the tailnet's answer for
+// the request's source address": the second request must be treated exactly as a fresh server treats
+// it under the second answer - status, body, database and audit records.
+func answerChanges(rep *report.Report, states []dbState) {
+	sec := rep.Add(&report.Section{Name: "tailnet-answer-changes-between-requests", Engine: "enum", Exhaustive: true, Extra: map[string]int64{}, Outcomes: map[string]int64{},
+		Rule: "database state(3) × ordered pair of WhoIs answers(10×10) × second request {endpoint(7) × its well-formed bodies} × source port of the second request {same, other}: a well-formed info request under the first answer, then the second request under the second answer on the same server; status, body, database and the audit records it writes must equal those of a fresh server that only ever saw the second answer; non-trivial = pairs whose two answers differ"})
+	ws := whos()
+	dir := hx.Scratch("c08ac-")
+	defer os.RemoveAll(dir)
+	rdir := hx.Scratch("c08acr-")
+	defer os.RemoveAll(rdir)
+	post := func(mux *http.ServeMux, ep, data, addr string) (int, []byte) {
+		req := httptest.NewRequest("POST", "/api/"+ep, strings.NewReader(data))
+		req.RemoteAddr = addr
+		req.Header.Set("Content-Type", "application/json")
+		req.Header.Set("Sec-X-Tailscale-No-Browsers", "setec")
+		rec := httptest.NewRecorder()
+		mux.ServeHTTP(rec, req)
+		return rec.Code, rec.Body.Bytes()
+	}
+	// audit records without their timestamps and random ids
+	strip := func(b []byte) string {
+		var out []string
+		for _, l := range bytes.Split(bytes.TrimSpace(b), []byte("\n")) {
+			var m map[string]any
+			if json.Unmarshal(l, &m) == nil {
+				delete(m, "time")
+				delete(m, "Time")
+				delete(m, "id") // a random number per record
+				c, _ := json.Marshal(m)
+				out = append(out, string(c))
+			} else if len(l) > 0 {
+				out = append(out, string(l))
+			}
+		}
+		return strings.Join(out, "\n")
+	}
+	for _, st := range states {
+		for i1, w1 := range ws {
+			for i2, w2 := range ws {
+				for _, ep := range endpoints {
+					for _, bd := range bodiesFor(ep) {
+						if bd.class != "valid" {
+							continue
+						}
+						for _, addr2 := range []string{"100.101.102.103:5555", "100.101.102.103:6001"} {
+							sec.Evaluations++
+							if i1 != i2 {
+								sec.Nontrivial++
+							}
+							desc := fmt.Sprintf("state=%s first answer %s, then %s: POST /api/%s body=%s from %s", st.name, w1.name, w2.name, ep, bd.name, addr2)
+							cur := w1
+							skA := &sink{}
+							dA := openCopy(dir, st.file, audit.New(skA))
+							muxA := http.NewServeMux()
+							if _, err := server.New(context.Background(), server.Config{DB: dA, WhoIs: func(ctx context.Context, a string) (*apitype.WhoIsResponse, error) { return cur.fn(ctx, a) }, Mux: muxA}); err != nil {
+								panic(err)
+							}
+							post(muxA, "info", `{"Name":"a"}`, "100.101.102.103:5555")
+							cur = w2
+							mark := skA.buf.Len()
+							codeA, bodyA := post(muxA, ep, bd.data, addr2)
+							skB := &sink{}
+							dB := openCopy(rdir, st.file, audit.New(skB))
+							muxB := http.NewServeMux()
+							if _, err := server.New(context.Background(), server.Config{DB: dB, WhoIs: w2.fn, Mux: muxB}); err != nil {
+								panic(err)
+							}
+							codeB, bodyB := post(muxB, ep, bd.data, addr2)
+							sec.Outcomes[fmt.Sprintf("second request %d", codeB)]++
+							var diffs []string
+							if codeA != codeB || !bytes.Equal(bodyA, bodyB) {
+								diffs = append(diffs, fmt.Sprintf("status %d body %q; a fresh server under the second answer gives %d %q", codeA, report.Clip(string(bodyA), 100), codeB, report.Clip(string(bodyB), 100)))
+							}
+							if a, b := hx.DumpKey(dA), hx.DumpKey(dB); a != b {
+								diffs = append(diffs, fmt.Sprintf("database %s; fresh server %s", a, b))
+							}
+							if a, b := strip(skA.buf.Bytes()[mark:]), strip(skB.buf.Bytes()); a != b {
+								diffs = append(diffs, fmt.Sprintf("audit records %q; fresh server %q", report.Clip(a, 200), report.Clip(b, 200)))
+							}
+							if len(diffs) > 0 {
+								rep.Violate(sec.Name, fmt.Sprintf("http/stale-identity: %s then %s", w1.name, w2.name), desc+": "+strings.Join(diffs, "; "), map[string]any{"desc": desc})
+							}
+						}
+					}
+				}
+			}
+		}
+	}
+	sec.States, sec.Transitions = int64(len(states)*len(ws)*len(ws)), sec.Evaluations
+	sec.Samples = append(sec.Samples, "state=a1 first answer user-full, then user-no-grant: POST /api/get body=valid-a from 100.101.102.103:6001")
 }
